@@ -262,9 +262,11 @@ def tlc_traces(module, cfg, traces, env=None, timeout=3600, tag=None):
     complete = 'Model checking completed. No error has been found' in out
     if not complete:
         cleanup(d)
+        errs = [ln for ln in out.splitlines() if ln.startswith('Error:')
+                or 'Attempted' in ln or 'overflow' in ln.lower()]
         raise MachineryError(
             f'trace validation {module}/{cfg} did not complete:\n'
-            + out[-3000:])
+            + '\n'.join(errs[:8]) + '\n...\n' + out[-1500:])
     missing = [i for i in range(1, len(traces) + 1)
                if i not in res['verdicts']]
     if missing:
